@@ -175,3 +175,56 @@ def handle (op : String) (j : Json) : R Json :=
   | _ => throw s!"unknown op {op}"
 
 end Oracle.Mage
+
+namespace Oracle.Mage
+open Lean MageModel.Parse MageModel.Gen MageModel.Gen.Flags MageModel.Invoke
+
+def valJ : Val → Json
+  | .b v => jstr s!"b:{v}" | .d v => jstr s!"d:{v}" | .s v => jstr ("s:" ++ v)
+
+def perrJ : PErr → String
+  | .badSyntax _ => "badSyntax" | .notDefined _ => "notDefined" | .help => "help" | .badBool _ _ => "badBool"
+  | .needsArg _ => "needsArg" | .badValue _ _ => "badValue"
+
+/-- `flags.parse`: Go's flag package on an arbitrary flag table -/
+def flagsParse (j : Json) : R Json := do
+  let specs ← listOf (fun s => do
+      let k ← fldStr s "kind"
+      pure (⟨← fldStr s "name", if k == "bool" then .bool else if k == "dur" then .dur else .str⟩ : Spec)) (← fld j "specs")
+  let conv ← convOf j
+  let argv ← strList (← fld j "argv")
+  match parse specs conv.parseDuration argv [] with
+  | .error e => pure (obj [("error", jstr (perrJ e))])
+  | .ok (a, rest) =>
+    let finals := specs.filterMap fun sp => (lastVal a sp.name).map fun v => Json.arr #[jstr sp.name, valJ v]
+    pure (obj [("set", Json.arr finals.toArray), ("rest", Json.arr (rest.map jstr).toArray)])
+
+def cmdJ : MageModel.Invoke.Command → String
+  | .none => "None" | .version => "Version" | .init => "Init" | .clean => "Clean" | .compileStatic => "CompileStatic"
+
+/-- `front.parse`: mage.Parse -/
+def frontParseOp (j : Json) : R Json := do
+  let conv ← convOf j
+  let E ← envOf j
+  let argv ← strList (← fld j "argv")
+  match frontParse conv.parseDuration E argv with
+  | .usage => pure (obj [("result", jstr "usage")])
+  | .misuse (.flag e) => pure (obj [("result", jstr ("flag:" ++ perrJ e))])
+  | .misuse .severalCommands => pure (obj [("result", jstr "severalCommands")])
+  | .misuse .goosWithoutCompile => pure (obj [("result", jstr "goosWithoutCompile")])
+  | .misuse .helpSeveralTargets => pure (obj [("result", jstr "helpSeveralTargets")])
+  | .misuse .strayArgs => pure (obj [("result", jstr "strayArgs")])
+  | .ok inv cmd =>
+    pure (obj [("result", jstr "ok"), ("cmd", jstr (cmdJ cmd)), ("debug", jbool inv.debug), ("dir", jstr inv.dir), ("workDir", jstr inv.workDir),
+               ("force", jbool inv.force), ("verbose", jbool inv.verbose), ("list", jbool inv.list), ("help", jbool inv.help),
+               ("keep", jbool inv.keep), ("timeout", jint inv.timeout), ("compileOut", jstr inv.compileOut), ("goos", jstr inv.goos),
+               ("goarch", jstr inv.goarch), ("ldflags", jstr inv.ldflags), ("args", Json.arr (inv.args.map jstr).toArray),
+               ("goCmd", jstr inv.goCmd), ("cacheDir", jstr inv.cacheDir), ("hashFast", jbool inv.hashFast)])
+
+def pathsOp (j : Json) : R Json := do
+  let a ← fldStr j "a"
+  let b ← fldStr j "b"
+  pure (obj [("clean", jstr (Paths.clean a)), ("join", jstr (Paths.join a b)), ("isAbs", jbool (Paths.isAbs a)),
+             ("abs", jstr (Paths.absFrom b a))])
+
+end Oracle.Mage
